@@ -98,6 +98,7 @@ func solveQueryL(q string, logic string, quick time.Duration, full time.Duration
 	if i := strings.Index(qc, "(get-value"); i >= 0 {
 		qc = qc[:i]
 	}
+	noCvc5 := strings.Contains(q, "(lambda ") // array comprehensions are z3 syntax
 	os.WriteFile(file+".cvc5", []byte("(set-logic "+logic+")\n"+qc), 0o644)
 	defer os.Remove(file)
 	defer os.Remove(file + ".cvc5")
@@ -127,6 +128,20 @@ func solveQueryL(q string, logic string, quick time.Duration, full time.Duration
 	short := quick * 3
 	if short > full {
 		short = full
+	}
+	if noCvc5 {
+		if r, _, ok := race([]string{"z3-new", "z3"}, []time.Duration{short, short}); ok {
+			return r
+		}
+		last, outs, ok := race([]string{"z3-new", "z3"}, []time.Duration{full, full})
+		if ok {
+			return last
+		}
+		st := "unknown"
+		if last.status == "timeout" {
+			st = "timeout"
+		}
+		return solverRes{st, "none", strings.Join(outs, " | "), time.Since(start).Seconds()}
 	}
 	if r, _, ok := race([]string{"z3-new", "cvc5"}, []time.Duration{quick, short}); ok {
 		return r
